@@ -81,7 +81,7 @@ StrStep(P, F, inp, st) ==
        LET s1 == Adv(inp, st, 1) IN
        IF Eof(inp, s1) THEN Halt(s1, TRUE)
        ELSE LET s2 == Adv(inp, s1, 1)
-                s3 == IF st.doc THEN [s2 EXCEPT !.text = Append(@, inp[s1.pos])] ELSE s2
+                s3 == IF st.doc THEN [s2 EXCEPT !.text = @ \o <<BS, inp[s1.pos]>>] ELSE s2      \* the text of a docstring is what stands between its quotes, backslashes included (fix)
             IN IF Eof(inp, s3) THEN Halt(s3, TRUE) ELSE s3
     ELSE IF MatchAt(inp, st.pos, st.q) THEN
        LET s1 == Adv(inp, st, Len(st.q))
